@@ -419,7 +419,7 @@ def elseTr (te : C.TyEnv) : Stmt → Except TrErr (Stmt × C.TyEnv)
 
 theorem okChain2_unfold (all : List String) (te : C.TyEnv) (c : Expr) (t e : Stmt) :
     (Stmt.ifs c t e).okChain2 all te =
-      if (!c.wt te) = true then none else
+      if (!c.okCond te) = true then none else
         (t.okBody2 all te).bind fun teT => (elseEnv all te e).bind fun teE =>
           if ((newDecls te teE).all fun d => match (newDecls te teT).lookup d.1 with | some t => t == d.2 | none => true) = true
           then some (te ++ newDecls te teT ++ (newDecls te teE).filter fun d => ((newDecls te teT).lookup d.1).isNone)
@@ -615,7 +615,7 @@ theorem chain_spec (all : List String) (s : Stmt) : ChainSpec all s := by
     · intro T hsub hT
       have hok1 := body_ok hT1 (Sub_trans hsT hsub) hT
       obtain ⟨hok2, htr2⟩ := hTE T (Sub_trans hsE hsub) hT
-      have hcw := (wt_sub (Sub_trans (Sub_trans (Sub_append _ _) (Sub_append _ _)) hsub) c hcwt).1
+      have hcw := okCond_sub (Sub_trans (Sub_trans (Sub_append _ _) (Sub_append _ _)) hsub) hcwt
       refine ⟨?_, ?_⟩
       · simp only [Stmt.okNested, Bool.and_eq_true]; exact ⟨⟨hcw, hok1⟩, hok2⟩
       · rw [trNested, body_tr hrt (Sub_trans heqT.sub' (Sub_trans hsT hsub)) hok1, ok_bind, htr2, ok_bind]; rfl
@@ -712,7 +712,7 @@ theorem trTop2_block_cases {all : List String} {s : Stmt} (hs : isBlock s = true
     have hokb := body_ok h2 heq.sub hT
     refine ⟨_, _, rfl, heq, fun hk => Fresh_newDecls _ (trBody2_keys hr hk), hnm, ?_, ?_⟩
     · simp only [Stmt.okNested, Bool.and_eq_true]
-      exact ⟨(wt_sub (Sub_trans (okBody2_sub h2) heq.sub) c hcwt).1, hokb⟩
+      exact ⟨okCond_sub (Sub_trans (okBody2_sub h2) heq.sub) hcwt, hokb⟩
     · rw [trNested, show (0 : Nat) + 1 = 1 from rfl, body_tr hr (Sub_trans (body_eqv he h2 hr).sub' heq.sub) hokb, ok_bind]; rfl
   | forRange i n b =>
     simp only [Stmt.okTop2] at h2
@@ -789,7 +789,7 @@ theorem trTop2_block_cases {all : List String} {s : Stmt} (hs : isBlock s = true
         have hxi : x ≠ i := by rintro rfl; rw [hi] at hx; cases hx
         rw [← heq x, lookup_filter_ne, if_pos hxi]
         exact hsubB x t (by rw [lookup_cons_ne _ _ hxi]; exact hx)
-      exact ⟨⟨⟨⟨(wt_sub hsubte n hnwt).1, hiall⟩, hTi⟩, hnv⟩, hokb⟩
+      exact ⟨⟨⟨⟨okCond_sub hsubte hnwt, hiall⟩, hTi⟩, hnv⟩, hokb⟩
     · rw [trNested, if_neg (by rw [hTi]; simp), show (0 : Nat) + 1 = 1 from rfl, body_tr hr (Sub_trans heqB.sub' hsubT) hokb, ok_bind]; rfl
   | _ => simp [isBlock] at hs
 
